@@ -267,10 +267,10 @@ pub fn programs(ctx: &Ctx) {
     let p = if kind == 0 {
         pick_program(ctx, if ctx.tier_thorough { 3 } else { 2 })
     } else {
+        // every catalogue string in every string field (rotated), image kind rotating with it
         let strings = crate::cat::strings();
-        let s0 = 37 * ctx.pick("string-block", 50);
-        let img = ctx.pick("image-kind", 5);
-        crate::c04::build_with(&strings, s0, img)
+        let s0 = ctx.pick("string", strings.len());
+        crate::c04::build_with(&strings, s0, s0 % 5)
     };
     ctx.describe(|| format!("copy of the file written by: {}", describe(&p)));
     let dev = Dev::empty();
